@@ -6,11 +6,12 @@
        terms, backward substitution): whenever the solver returns, its result coincides with EVERY
        solution of the p x q system on all q unknowns, and is a solution as soon as one exists
        (universal in p, q, the matrix, the right-hand sides and the symbol group).
-   Still missing (hence the check also relies on the correspondence and a GF(2) rank oracle for it):
-   failure only if the matrix lacks full column rank; dense copy/copyrows/copycols theorems; SWAR
-   popcounts. *)
+       The solver gives up if and only if the matrix has a non-trivial GF(2) kernel vector, i.e. lacks
+       full column rank (DenseSolveComplete.v), and whether it gives up never depends on the
+       right-hand sides.
+   Still missing: dense copy/copyrows/copycols theorems; SWAR popcounts (correspondence only). *)
 From Coq Require Import NArith Arith List Bool.
-From OFV Require Import ListAux Dense DenseProofs DenseSolve DenseSolveProofs.
+From OFV Require Import ListAux Dense DenseProofs DenseSolve DenseSolveProofs DenseSolveComplete.
 Import ListNotations.
 
 Theorem dense_get_after_set : forall m i j v i' j', WFd m -> i < dr m -> j < dc m ->
@@ -31,7 +32,7 @@ Proof. exact get_xor_rows. Qed.
 Theorem dense_empty_row_has_no_bit : forall m i, d_row_is_empty m i = true -> forall j, d_get m i j = false.
 Proof. exact row_is_empty_sound. Qed.
 
-Theorem solver_returns_the_solution_partial :
+Theorem solver_returns_the_solution :
   forall (Sy : Type) (sxor : Sy -> Sy -> Sy) (s0 : Sy),
   (forall a b c, sxor a (sxor b c) = sxor (sxor a b) c) -> (forall a b, sxor a b = sxor b a) ->
   (forall a, sxor s0 a = a) -> (forall a, sxor a a = s0) ->
@@ -41,5 +42,20 @@ Theorem solver_returns_the_solution_partial :
   ((exists x', sol Sy sxor s0 p q y x') -> sol Sy sxor s0 p q y x).
 Proof. exact solve_sound_proof. Qed.
 
+Theorem solver_fails_iff_rank_deficient :
+  forall (Sy : Type) (sxor : Sy -> Sy -> Sy) (s0 : Sy) (p q : nat) (y : sys Sy), WFs Sy p q y ->
+  (solve Sy sxor s0 p q y = None <->
+   exists z : nat -> bool, (exists c, c < q /\ z c = true) /\
+     forall r, r < p -> fold_right xorb false (map (fun c => bit (getrow (sA y) r) c && z c) (seq 0 q)) = false).
+Proof. exact solve_none_iff_kernel. Qed.
+
+Theorem solver_failure_independent_of_rhs :
+  forall (Sy : Type) (sxor : Sy -> Sy -> Sy) (s0 : Sy) (p q : nat) (y1 y2 : sys Sy),
+  WFs Sy p q y1 -> WFs Sy p q y2 -> sA y1 = sA y2 ->
+  (solve Sy sxor s0 p q y1 = None <-> solve Sy sxor s0 p q y2 = None).
+Proof. exact solve_control_independent_of_rhs. Qed.
+
 Print Assumptions dense_get_after_set.
-Print Assumptions solver_returns_the_solution_partial.
+Print Assumptions solver_returns_the_solution.
+Print Assumptions solver_fails_iff_rank_deficient.
+Print Assumptions solver_failure_independent_of_rhs.
